@@ -228,6 +228,9 @@ func repoFrames(stack string) []string {
 			continue
 		}
 		if i := strings.Index(ln, "github.com/streamingfast/substreams/"); i >= 0 {
+			if strings.HasSuffix(ln, "(...)") {
+				continue // inlined helper: whether a sample lands in it or in its caller is a matter of timing
+			}
 			fn := ln[i+len("github.com/streamingfast/substreams/"):]
 			if j := strings.LastIndex(fn, "("); j >= 0 {
 				fn = fn[:j]
